@@ -26,6 +26,33 @@ func separatorsIn(c *Ctx, pa *provAnalysis, fns []*ssa.Function) map[string]map[
 			}
 			sep := constOrEmpty(bo.X)
 			if sep == "" {
+				// table-driven: row.sep + row.value over a literal table
+				if ia, sf, ok := loopElemField(bo.X); ok {
+					if ib, vf, ok := loopElemField(bo.Y); ok && ia == ib {
+						var arr *ssa.Alloc
+						switch x := ia.X.(type) {
+						case *ssa.Slice:
+							arr, _ = x.X.(*ssa.Alloc)
+						case *ssa.Alloc:
+							arr = x
+						}
+						if arr != nil {
+							for _, row := range tableRows(arr, ia) {
+								k, isK := row[sf].(*ssa.Const)
+								if !isK || row[vf] == nil {
+									continue
+								}
+								for _, a := range pa.Of(row[vf]).fields() {
+									comp := strings.TrimPrefix(a, "Info.")
+									if out[comp] == nil {
+										out[comp] = map[string]bool{}
+									}
+									out[comp][constOrEmpty(k)] = true
+								}
+							}
+						}
+					}
+				}
 				return
 			}
 			for _, a := range pa.Of(bo.Y).fields() {
@@ -36,6 +63,46 @@ func separatorsIn(c *Ctx, pa *provAnalysis, fns []*ssa.Function) map[string]map[
 				out[comp][sep] = true
 			}
 		})
+	}
+	// builder form: b.WriteByte('~'); b.WriteString(info.Prerelease)
+	for _, fn := range fns {
+		for _, blk := range fn.Blocks {
+			lastSep := ""
+			var lastRecv ssa.Value
+			for _, in := range blk.Instrs {
+				call, ok := in.(*ssa.Call)
+				if !ok {
+					continue
+				}
+				o := calleeObj(call)
+				if o == nil || !strings.HasPrefix(o.Name(), "Write") || len(call.Call.Args) != 2 {
+					continue
+				}
+				recv := call.Call.Args[0]
+				if !isNamed(derefType(recv.Type()), "strings", "Builder") && !isNamed(derefType(recv.Type()), "bytes", "Buffer") {
+					continue
+				}
+				arg := call.Call.Args[1]
+				if k, isK := arg.(*ssa.Const); isK && k.Value != nil {
+					if cs := constOrEmpty(k); cs != "" {
+						lastSep, lastRecv = cs, recv
+					} else if k.Value.Kind().String() == "Int" {
+						lastSep, lastRecv = string(rune(k.Int64())), recv
+					}
+					continue
+				}
+				if lastSep != "" && lastRecv == recv {
+					for _, a := range pa.Of(arg).fields() {
+						comp := strings.TrimPrefix(a, "Info.")
+						if out[comp] == nil {
+							out[comp] = map[string]bool{}
+						}
+						out[comp][lastSep] = true
+					}
+				}
+				lastSep = ""
+			}
+		}
 	}
 	return out
 }
